@@ -193,6 +193,11 @@ def show(t) -> str:
         return "(" + f" {k} ".join(show(x) for x in t[1]) + ")"
     if k == "not":
         return f"not {show(t[1])}"
+    if k in ("is", "eqv"):
+        a, b = t[1]
+        return f"({show(a)} {'is' if k == 'is' else '=='} {show(b)})"
+    if not isinstance(k, str):
+        return "(" + ", ".join(show(x) if isinstance(x, tuple) else repr(x) for x in t) + ")"
     if k in ("tuple", "list", "set"):
         return ("(%s)" if k == "tuple" else "[%s]") % ", ".join(show(x) for x in t[1])
     if k == "binop":
